@@ -167,3 +167,10 @@ package validators
 //@   loop 3 invariant ledger: ledgerDelta(ck, 0) + remainder.val + DAOReward.val + DevelopersReward.val - moreRewards.val - validator.accumReward.val <= old(ledgerDelta(ck, 0))
 //@   loop 3 invariant othercoins: forall k types.CoinID :: k != 0 ==> ledgerDelta(ck, k) == old(ledgerDelta(ck, k))
 //@   loop 3 invariant outer: vals == v.list && v.list == old(v.list) && moreRewards != nil && (forall i int :: loop2_rangeindex + 1 < i && i < len(vals) ==> vals[i].accumReward == old(vals[i].accumReward) && vals[i].totalStake == old(vals[i].totalStake) && vals[i].bus == v.bus) && (forall i int :: 0 <= i && i < len(vals) ==> vals[i].totalStake == old(vals[i].totalStake) && vals[i].bus == v.bus)
+
+//@ # ---------------------------------------------------------------- lock discipline (C25)
+//@ guarded Validators.list, Validators.removed by lock
+//@ func (*Validators).getOrderedRemoved #lockpre
+//@   requires held(v.lock)
+//@ func (*Validators).uncheckDirtyValidators #lockpre
+//@   requires held(v.lock)
